@@ -252,6 +252,13 @@ def handle (args : List String) : String :=
         | .ok v => itemEnc n (encode n mode v)
         | .error e => "!" ++ e.toStr)
     | _, _, _, _ => "bad-op"
+  -- a history: the same value encoded under a sequence of `mxfp_overflow` settings (`s` = saturate, `o` = overflow);
+  -- every step must give the code for the setting current at that step, whatever was encoded before
+  | ["modeseq", n, order, f] =>
+    match Name.ofStr? n, order.toList.mapM (fun c => if c = 's' then some Mode.saturate else if c = 'o' then some Mode.overflow else none),
+          hexToNat? f with
+    | some n, some modes, some f => "ok " ++ ",".intercalate (modes.map fun mode => itemEnc n (encode n mode f))
+    | _, _, _ => "bad-op"
   | _ => "bad-op"
 
 end BM.C11
